@@ -177,7 +177,8 @@ def writerStep (s : WriterSt) : List String → WriterSt × String
       else (s, "bad-op")
     | _, _, _, _, _ => (s, "bad-op")
   | "end" :: via =>
-    if via = [] ∨ via = ["hc"] then
+    -- `hf`: the single handler of the chain used as an http.Handler (HandlerFunc.ServeHTTP): a chain of one, no hooks
+    if via = [] ∨ via = ["hc"] ∨ (via = ["hf"] ∧ s.cfg.k = 1 ∧ s.cfg.hasOnPanic = false ∧ s.cfg.hasOnError = false) then
       let f := s.req.finish
       ({ s with req := Req.init s.cfg, rank := 0 },
        s!"{boolStr s.req.escaped} {logStr f.log} len={f.length} ;; st={f.status} ct={ctStr f.ctype} sent={sentStr f.sent}")
